@@ -20,6 +20,7 @@ mod judge;
 mod lin;
 mod sched;
 mod stress;
+mod cleanup;
 mod sys;
 
 use judge::{Analysis, analyze};
@@ -814,6 +815,17 @@ fn main() {
         );
         run_dfs_section(&mut ck, "dfs-multi", scope, progs, 16, &known_keys);
     }
+
+    // --- the background sweep as one more task ---------------------------------------------------
+    ck.run(
+        Section::enumerate(
+            "memory-with-cleanup-task",
+            "MemoryCache::new_with_cleanup (sweep every 60 s, paused clock): two tasks put values that are expired from the start or good for an hour, sweep ticks in between (never / after every / after every 2nd operation) and after the tasks finished; then size(), stats.entry_count and stats bytes equal what a read of every key finds",
+            || Box::new(cleanup::all_cases().into_iter()),
+            cleanup::check,
+        )
+        .shards(8),
+    );
 
     // --- random -----------------------------------------------------------------------
     let (kn, kk) = (known.clone(), known_keys.clone());
